@@ -56,6 +56,13 @@ AddSimple(sel, s) ==
                                                                IF s.a = 0 /\ "raw" \notin DOMAIN s THEN 0 ELSE s.b, s.oftype, s.last,
                                                                IF s.oftype THEN EmptyList
                                                                ELSE IF s.of = <<>> THEN StarStar ELSE CompileList(s.of, TRUE, FALSE, FALSE)))]
+      [] s.k = "htmllist" ->      \* a state pseudo-class: the precompiled HTML-only list (FLG_HTML), special flag on its LAST alternative
+           LET l == CompileList(s.args, TRUE, FALSE, FALSE)
+               n == Len(l.selectors)
+           IN [sel EXCEPT !.selectors = Append(@, [selectors |-> IF s.flag = "" THEN l.selectors
+                                                                 ELSE [l.selectors EXCEPT ![n] = [@ EXCEPT !.flags = {s.flag}]],
+                                                   is_not |-> FALSE, is_html |-> TRUE])]
+      [] s.k = "flag"  -> [sel EXCEPT !.flags = @ \cup {s.f}]                                  \* :defined
       [] s.k = "none"  -> NullSel
 RECURSIVE FoldSimple(_, _, _)
 FoldSimple(comp, n, sel) == IF n > Len(comp) \/ IsNull(sel) THEN sel ELSE FoldSimple(comp, n + 1, AddSimple(sel, comp[n]))
@@ -100,11 +107,17 @@ AlgoNth(d, env, n, i) ==
         pos == IF n.last THEN Cardinality({j \in qual : j >= i}) ELSE Cardinality({j \in qual : j <= i})
     IN ofOk(i) /\ (IF n.n THEN NthOk(n.a, n.b, pos) ELSE pos = n.a)
 
+\* inside an HTML-only list the matcher runs with iframe_restrict: walks towards the root stop below an iframe (the own document)
+Restricted(env) == "restrict" \in DOMAIN env /\ env.restrict
+ParentR(d, env, i) == IF Restricted(env) /\ d.parent[i] # 0 /\ IsIframe(d, d.parent[i]) THEN 0 ELSE d.parent[i]
+AncR(d, env, i) == IF Restricted(env) THEN HsAnc(d, i) ELSE Anc(d, i)
+HtmlNsMap == <<[p |-> <<104,116,109,108>>, u |-> XHTML]>>           \* the private prefix map {'html': XHTML} of the HTML-only lists
+
 AlgoPast(d, env, rel, i) ==       \* rel = one-element list; its selector's rel_type is the combinator
     LET r == rel.selectors[1] IN
     IF IsNull(r) THEN FALSE
-    ELSE CASE r.rel_type = " " -> \E p \in Anc(d, i) : AlgoList(d, env, rel, p)            \* walk stops below the document object
-           [] r.rel_type = ">" -> d.parent[i] # 0 /\ AlgoList(d, env, rel, d.parent[i])
+    ELSE CASE r.rel_type = " " -> \E p \in AncR(d, env, i) : AlgoList(d, env, rel, p)      \* walk stops below the document object
+           [] r.rel_type = ">" -> ParentR(d, env, i) # 0 /\ AlgoList(d, env, rel, ParentR(d, env, i))
            [] r.rel_type = "~" -> \E p \in PrevElSibs(d, i) : AlgoList(d, env, rel, p)
            [] r.rel_type = "+" -> PrevElSibs(d, i) # {} /\ AlgoList(d, env, rel, Max(PrevElSibs(d, i)))
            [] OTHER -> FALSE
@@ -137,9 +150,12 @@ AlgoSel(d, env, s, i) ==          \* the checks of match_selectors, in the order
            THEN AlgoFuture(d, env, s.relation, i) ELSE AlgoPast(d, env, s.relation, i)))
 
 \* for selector in list: match = is_not; null -> continue; all checks pass -> match = not is_not, break
+\* an HTML-only list (is_html) is skipped in a document that is XML but not XHTML; otherwise it is evaluated under the private prefix map
+\* and with iframe_restrict, both restored afterwards
 AlgoList(d, env, lst, i) ==
-    LET hit == \E n \in 1..Len(lst.selectors) : AlgoSel(d, env, lst.selectors[n], i) IN
-    IF lst.selectors = <<>> THEN FALSE ELSE (IF lst.is_not THEN ~hit ELSE hit)
+    LET e2 == IF lst.is_html THEN [nsmap |-> HtmlNsMap, scope |-> env.scope, restrict |-> TRUE] ELSE env
+        hit == \E n \in 1..Len(lst.selectors) : AlgoSel(d, e2, lst.selectors[n], i) IN
+    IF lst.selectors = <<>> \/ (lst.is_html /\ ~IsHtml(d)) THEN FALSE ELSE (IF lst.is_not THEN ~hit ELSE hit)
 
 AlgoMatches(d, env, lst, i) == IsEl(d, i) /\ AlgoList(d, env, Compile(lst), i)
 =============================================================================
